@@ -43,6 +43,12 @@ type Profile struct {
 	ForkDepth   int    `json:"fork_depth,omitempty"`
 	AckedOnly   bool   `json:"acked_only,omitempty"` // unsafe mode only with persisted callbacks
 	NoMerge     bool   `json:"no_merge,omitempty"`   // no merges at all: many segments per snapshot
+	Concurrent  bool   `json:"concurrent,omitempty"`  // C15: release a seeded SET of actors per window (race detector build)
+	EarlyClose  bool   `json:"early_close,omitempty"` // C15: Close while background work is in progress
+	SharedReads bool   `json:"shared_reads,omitempty"`
+	ForceSegVer int    `json:"force_seg_ver,omitempty"`
+	Unshielded  bool   `json:"unshielded,omitempty"` // C15 known-finding probe: ice v2 stored-field buffer not serialised
+	StatsCalls  bool   `json:"stats_calls,omitempty"` // C15 known-finding probe: index.Writer.Stats() under concurrency
 
 	PostRun func(r *Run, res *Result) `json:"-"`
 }
@@ -124,6 +130,14 @@ func decodeKnobs(p *Profile, t *Tape) *Knobs {
 		k.Floor = int64(pick(t, "k.floor", 10, 50))
 		k.MaxSeg = int64(pick(t, "k.maxseg", 200, 5000))
 		k.TierGrowth = float64(pick(t, "k.growth", 3, 10))
+	}
+	if p.ForceSegVer != 0 {
+		k.SegVer = p.ForceSegVer
+	}
+	if p.Concurrent {
+		k.MidGate = 0      // a shielded merger parked mid-write would block readers on a plain mutex
+		k.SegGates = true  // the shield lives in the segment wrapper
+		k.EventGates = t.Chance(1, 2, "k.conc.eventgates")
 	}
 	if p.NoMerge {
 		k.Tiers, k.MinMemMerge, k.Unsafe, k.PCB, k.NapMS, k.NapUnderFiles = 100000, 100000, true, false, 0, 100000
@@ -254,7 +268,12 @@ type Run struct {
 	osHook      *OSHook
 	commits     int
 	dirInvSeen  int
-	slotBusy    map[int]bool // slot reserved by an operation that is being executed
+	slotBusy    map[int]bool   // slot reserved by an open/close operation in flight (scheduler goroutine only)
+	slotOf      map[string]int // client -> slot it reserved
+	conc        bool
+	closeAfter  int // EarlyClose: start closing after this many client operations (0: at quiescence)
+	earlyClosed bool
+	opsIssued   int
 	docs       map[string]*DocSpec
 	recovered  map[int]*Content // image index -> recovered content (crash oracle)
 }
@@ -271,6 +290,9 @@ type HistOp struct {
 }
 
 func (r *Run) probe(name string) {
+	if r.conc && r.s != nil && r.s.ActorName() != "" {
+		return // no shared mutex between actors under the race detector
+	}
 	r.mu.Lock()
 	r.stats.Probes[name]++
 	r.mu.Unlock()
@@ -419,11 +441,6 @@ func (r *Run) exec(c *client, op *Op) {
 		if p := recover(); p != nil {
 			r.fail("panic", fmt.Sprintf("%s panicked in %s: %v", c.name, op, p))
 		}
-		if strings.Contains(op.Kind, "reader-") {
-			r.mu.Lock()
-			delete(r.slotBusy, op.Slot)
-			r.mu.Unlock()
-		}
 	}()
 	switch op.Kind {
 	case "open":
@@ -489,6 +506,25 @@ func (r *Run) exec(c *client, op *Op) {
 			return
 		}
 		r.s.Rec("return", "snap-read "+cont.Key(), readData{-1, cont, c.idx})
+	case "shared-read":
+		r.mu.Lock()
+		h := r.slots[op.Slot]
+		r.mu.Unlock()
+		if h != nil {
+			r.rereadHeld(op.Slot, h)
+		}
+	case "stats":
+		iw := r.w.VerifIndexWriter()
+		_ = iw.MemoryUsed()
+		if r.p.StatsCalls {
+			// index.Writer.Stats() copies the counters non-atomically (listed
+			// known finding): only the dedicated probe run calls it, so that
+			// it cannot mask other races under halt_on_error
+			st := iw.Stats()
+			if st.TotBatches > uint64(r.nextBatch)+1 {
+				r.fail("stats", fmt.Sprintf("Stats().TotBatches=%d exceeds the %d batches ever issued", st.TotBatches, r.nextBatch))
+			}
+		}
 	case "second-writer":
 		r.s.Rec("invoke", "second-writer", nil)
 		w2, err := bluge.OpenWriter(r.cfg)
@@ -602,6 +638,9 @@ func (r *Run) rereadHeld(slot int, h *heldReader) {
 			return
 		}
 	}
+	if r.conc {
+		return // several clients may read one reader at once: no shared bookkeeping
+	}
 	h.reads++
 	if r.s.Win > h.openWin+1 {
 		r.probe("reader-reread")
@@ -705,8 +744,7 @@ func (r *Run) genOp(c *client) *Op {
 	t := r.t
 	if r.p.Readers {
 		free, held := -1, []int{}
-		r.mu.Lock()
-		for i, h := range r.slots {
+		for i, h := range r.slots { // scheduler goroutine at a quiescent point: no lock needed
 			if h == nil {
 				if free < 0 && !r.slotBusy[i] {
 					free = i
@@ -715,7 +753,20 @@ func (r *Run) genOp(c *client) *Op {
 				held = append(held, i)
 			}
 		}
-		r.mu.Unlock()
+		if r.p.SharedReads {
+			var any []int
+			for i, h := range r.slots {
+				if h != nil && (!r.slotBusy[i]) {
+					any = append(any, i)
+				}
+			}
+			switch v := t.Draw(10, "op.shared"); {
+			case v < 4 && len(any) > 0:
+				return &Op{Kind: "shared-read", Slot: any[t.Draw(len(any), "op.slot")]}
+			case v == 4:
+				return &Op{Kind: "stats"}
+			}
+		}
 		switch v := t.Draw(10, "op.class"); {
 		case v == 6 && r.p.DirInv && r.k.Dir == "fs" && t.Chance(1, 2, "op.second"):
 			return &Op{Kind: "second-writer"}
@@ -834,22 +885,37 @@ func (r *Run) allClientsDone() bool {
 // step releases p (generating the next operation if p is a client waiting
 // for one) and runs one window.
 func (r *Run) release(p *parked) {
+	r.s.NextWindow()
+	r.s.Release(p, r.prepare(p))
+}
+
+// prepare does the scheduler-side work of releasing p (generating the next
+// operation of a client that waits for one) and returns the argument to
+// release it with. Nothing runs concurrently with prepare.
+func (r *Run) prepare(p *parked) any {
 	var arg any
 	if p.label == "next-op" {
+		if slot, ok := r.slotOf[p.actor]; ok { // its previous operation has returned
+			delete(r.slotBusy, slot)
+			delete(r.slotOf, p.actor)
+		}
 		var c *client
 		for _, cc := range r.clients {
 			if cc.name == p.actor {
 				c = cc
 			}
 		}
+		if r.closeAfter > 0 && r.opsIssued >= r.closeAfter {
+			r.stopping = true
+		}
 		if c != nil && c.opsLeft > 0 && !r.stopping {
 			c.opsLeft--
 			op := r.genOp(c)
-			if strings.Contains(op.Kind, "reader-") {
-				r.mu.Lock()
+			if op.Kind == "reader-open" || op.Kind == "dir-reader-open" || op.Kind == "reader-close" {
 				r.slotBusy[op.Slot] = true
-				r.mu.Unlock()
+				r.slotOf[c.name] = op.Slot
 			}
+			r.opsIssued++
 			arg = op
 			r.opsLog = append(r.opsLog, fmt.Sprintf("w%d %s: %s", r.s.Win+1, c.name, op))
 			if r.bgSinceClient > 0 {
@@ -861,12 +927,11 @@ func (r *Run) release(p *parked) {
 		r.bgSinceClient++
 	}
 	r.lastRel = p.actor
-	r.s.NextWindow()
 	r.stats.SchedSig = mix64(r.stats.SchedSig, hashStr(p.sig()))
 	if len(r.sched) < 4000 {
 		r.sched = append(r.sched, p.actor+":"+p.label)
 	}
-	r.s.Release(p, arg)
+	return arg
 }
 
 func hashStr(s string) uint64 {
@@ -922,6 +987,39 @@ func (r *Run) runLoop(until func() bool) {
 				all = append(all, p.actor+":"+p.label)
 			}
 			r.parkedLog = append(r.parkedLog, fmt.Sprintf("w%d %v", r.s.Win, all))
+		}
+		if r.conc && len(P) > 1 {
+			// concurrent window: a seeded set of 2..6 parked actors proceeds at
+			// once; regions released together have no happens-before edge
+			// between them, so the race detector sees every conflicting pair
+			n := 2 + r.t.Draw(5, "sched.setsize")
+			if n > len(P) {
+				n = len(P)
+			}
+			rest := append([]*parked(nil), P...)
+			r.s.NextWindow()
+			var set []*parked
+			for k := 0; k < n && len(rest) > 0; k++ {
+				p := r.choose(rest)
+				for i, q := range rest {
+					if q == p {
+						rest = append(rest[:i], rest[i+1:]...)
+						break
+					}
+				}
+				set = append(set, p)
+			}
+			// prepare all arguments first (operation generation draws from the
+			// tape and must not overlap with running actors), then let go
+			args := make([]any, len(set))
+			for i, p := range set {
+				args[i] = r.prepare(p)
+			}
+			for i, p := range set {
+				r.s.Release(p, args[i])
+			}
+			r.stats.Probes["concurrent-windows"]++
+			continue
 		}
 		r.release(r.choose(P))
 	}
@@ -1011,7 +1109,21 @@ func (r *Run) afterWindow() {
 		// a Reader obtained inside this window read either the root the
 		// window started with or the root it ended with (one release per
 		// window; merges and persists do not change content)
-		if k := sr.c.Key(); k != prevKey && k != r.lastMonKey {
+		if r.conc {
+			// several actors ran in this window: the reader may hold any state
+			// the index went through
+			ok := false
+			for _, e := range r.chain.entries {
+				if e.Key == sr.c.Key() {
+					ok = true
+					break
+				}
+			}
+			if !ok {
+				r.fail("reader-prefix", fmt.Sprintf("a Reader obtained by client%d in window %d holds %s, which is not the abstract index after any prefix of the applied batches", sr.client, r.s.Win, sr.c.Key()))
+				return
+			}
+		} else if k := sr.c.Key(); k != prevKey && k != r.lastMonKey {
 			r.fail("reader-prefix", fmt.Sprintf("a Reader obtained by client%d in window %d holds %s, which is neither the abstract index before (%s) nor after (%s) that window", sr.client, r.s.Win, k, prevKey, r.lastMonKey))
 			return
 		}
@@ -1123,7 +1235,7 @@ var runCounter int
 func newRun(p *Profile, t *Tape, scratch string) *Run {
 	runCounter++
 	r := &Run{p: p, t: t, stored: map[string]map[string]string{}, acks: map[int]int{}, ackErr: map[int]string{}, invokeSeq: map[int]int{},
-		merging: map[string][]string{}, callWin: map[int]int{}, docs: map[string]*DocSpec{}, recovered: map[int]*Content{}, slotBusy: map[int]bool{}}
+		merging: map[string][]string{}, callWin: map[int]int{}, docs: map[string]*DocSpec{}, recovered: map[int]*Content{}, slotBusy: map[int]bool{}, slotOf: map[string]int{}}
 	r.stats.Probes = map[string]int{}
 	r.stats.Faults = map[string]int{}
 	r.root = filepath.Join(scratch, fmt.Sprintf("run-%d", runCounter))
@@ -1144,6 +1256,16 @@ func (r *Run) Execute() {
 	runKey := uint64(t.Draw(1<<30, "run.selectkey")) + 1
 	r.s = NewSim(runKey)
 	r.s.keepLog = 400
+	r.conc = r.p.Concurrent
+	r.s.quiet = r.conc
+	r.s.shieldV2 = r.conc && !r.p.Unshielded
+	if r.p.EarlyClose && t.Chance(2, 3, "run.earlyclose") {
+		total := 0
+		for _, n := range r.k.Ops {
+			total += n
+		}
+		r.closeAfter = 1 + t.Draw(total, "run.closeafter")
+	}
 	r.s.OnEvent = func(e *Event) { r.winEvents = append(r.winEvents, e) }
 	for i := 0; i < r.k.IDSpace; i++ {
 		r.idspace = append(r.idspace, fmt.Sprintf("d%02d", i))
@@ -1223,9 +1345,39 @@ func (r *Run) Execute() {
 	for _, c := range r.clients[1:] {
 		go r.clientMain(c)
 	}
-	r.runLoop(nil)
-	if r.failed() || r.budgetStop {
-		return
+	if r.closeAfter > 0 {
+		r.runLoop(func() bool {
+			if !r.stopping {
+				return false
+			}
+			for _, c := range r.clients {
+				if c.done {
+					continue
+				}
+				parkedAtNext := false
+				for _, p := range r.s.parkedSnapshot() {
+					if p.actor == c.name && p.label == "next-op" {
+						parkedAtNext = true
+					}
+				}
+				if !parkedAtNext {
+					return false // a call of this client has not returned yet
+				}
+			}
+			return true
+		})
+		if r.failed() || r.budgetStop {
+			return
+		}
+		r.earlyClosed = r.stopping
+		if r.s.ParkedCount() > len(r.clients) {
+			r.stats.Probes["close-while-background-work-in-progress"]++
+		}
+	} else {
+		r.runLoop(nil)
+		if r.failed() || r.budgetStop {
+			return
+		}
 	}
 	r.quiescentChecks()
 }
@@ -1342,6 +1494,12 @@ func (r *Run) reopenCheck() {
 		if len(r.batches) == 0 || r.finalModel == nil {
 			return
 		}
+		if r.earlyClosed {
+			if len(r.acks) > 0 {
+				r.fail("reopen-after-early-close", fmt.Sprintf("batches %v were acknowledged, but after Close no snapshot can be opened: %v", r.ackedBefore(r.s.Win+1), err))
+			}
+			return
+		}
 		// no snapshot at all is legal only if nothing was ever applied
 		if r.anyVisibleBatch() {
 			r.fail("reopen", "OpenReader after a clean Close failed: "+err.Error())
@@ -1352,6 +1510,16 @@ func (r *Run) reopenCheck() {
 	_ = rd.Close()
 	if err != nil {
 		r.fail("reopen", "reading the reopened index failed: "+err.Error())
+		return
+	}
+	if r.earlyClosed {
+		// Close came while persists/merges were in progress: everything
+		// acknowledged must be there, unacknowledged batches may be missing,
+		// and the content must still be a state the index went through
+		if msg := r.explainDiskRead(c, r.s.Win+1); msg != "" {
+			r.fail("reopen-after-early-close", "index reopened after a Close issued while background work was in progress: "+msg)
+		}
+		r.stats.Probes["reopened-after-early-close"]++
 		return
 	}
 	if msg := CompareModel(c, r.finalModel, r.stored); msg != "" {
